@@ -41,7 +41,7 @@ from runner import Infra, TieBroken
 
 ID = "C13"
 LEAN_MODULES = ["PyYetiVerif.Props.C13", "PyYetiVerif.Props.C13Text", "PyYetiVerif.Props.C13Dmig", "PyYetiVerif.Props.C13Grid",
-                "PyYetiVerif.Props.C13Cord", "PyYetiVerif.Props.C13DmigX", "PyYetiVerif.Props.C13Fmt", "PyYetiVerif.Audit.C13"]
+                "PyYetiVerif.Props.C13Cord", "PyYetiVerif.Props.C13DmigX", "PyYetiVerif.Props.C13Fmt", "PyYetiVerif.Props.C13Multi", "PyYetiVerif.Audit.C13"]
 AUDIT_FILE = "PyYetiVerif/Audit/C13.lean"
 THEOREMS = [
     "PyYetiVerif.C13." + n
@@ -58,7 +58,8 @@ THEOREMS = [
         "rddmig_default_is_plain rddmig_options_same_cells rddmig_square_index rddmig_expanded_index "
         "rddmig_expanded_spec rddmig_square_spec rddmig_options_on_lines "
         "bulk_format_widths_ok dmig_lines_are_templates grid_card_is_template cord_card_is_template nasints_is_template "
-        "set_tokens_are_templates tabled1_is_template"
+        "set_tokens_are_templates tabled1_is_template "
+        "readers_independent typed_readers_independent sets_in_file wtset_is_segment"
     ).split()
 ]
 TRUSTED = [
@@ -1329,6 +1330,157 @@ def _grid_to_comma(text, rng):
     return "\n".join(out) + "\n"
 
 
+# ---------------------------------------------------------------------------------------
+# files that hold the cards of several readers (Model/BulkMulti.lean)
+
+OWNERS = {"dmig": 0, "grid": 1, "cord2r": 2, "cord2c": 2, "cord2s": 2, "spoint": 3, "csuper": 4, "extrn": 5, "tabled1": 6}
+
+
+def _segments(text):
+    """cut a written block into the segments of Model/BulkMulti.lean: a card = a line that begins with a letter and the
+    following lines that begin with one of ' +*'; comment lines, SET statements and everything else are junk"""
+    segs = []
+    lines = text.split("\n")
+    if lines and lines[-1] == "":
+        lines.pop()
+    in_set = False
+    for ln in lines:
+        low = ln.lower()
+        owner = None
+        for nm, o in OWNERS.items():
+            if low.startswith(nm) and not low.startswith("set"):
+                owner = o
+                break
+        if owner is not None:
+            segs.append(["c%d" % owner, ln])
+            in_set = False
+        elif ln[:1] in (" ", "+", "*") and segs and segs[-1][0] != "j" and not in_set:
+            segs[-1].append(ln)
+        else:
+            in_set = low.lstrip().startswith("set") or (in_set and ln[:1].isdigit())
+            if segs and segs[-1][0] == "j":
+                segs[-1].append(ln)
+            else:
+                segs.append(["j", ln])
+    return segs
+
+
+def _gen_multi_file(rng, dmig=True):
+    """one file with the cards of several writers, comments, foreign cards, empty lines and SET statements interleaved;
+    -> (text, segments, {reader: text of its own blocks alone, in file order}, sets)"""
+    bulk = _bulk()
+    blocks = []   # (reader or None, text)
+    names = set()
+    for _ in range(rng.randint(1, 3) if dmig else 0):
+        d = _gen_dmig_int(rng)
+        if d["name"].lower() in names or not any(any(v != (0, 0) for v in row) for row in d["m"]):
+            continue
+        names.add(d["name"].lower())
+        blocks.append(("dmig", _write(bulk.wtdmig, {d["name"]: _dmig_frame(d)})))
+    for _ in range(rng.randint(0, 2)):
+        c = _gen_grid_case(rng, bad=0.0)
+        t = _grid_write(c)
+        if not t.startswith("error"):
+            blocks.append(("grid", t))
+    if rng.random() < 0.7:
+        blocks.append(("cord2", _write(bulk.wtcoordcards, _gen_cord_ci(rng))))
+    if rng.random() < 0.6:
+        blocks.append(("spoint", _write(bulk.wtspoints, [i for i in _gen_idlist(rng, 25) if i > 0] or [5])))
+    if rng.random() < 0.6:
+        blocks.append(("csuper", _write(bulk.wtcsuper, rng.randint(1, 999), [i for i in _gen_idlist(rng, 25) if i > 0])))
+    if rng.random() < 0.5:
+        ids = [i for i in _gen_idlist(rng, 12) if i > 0] or [9]
+        blocks.append(("extrn", _write(bulk.wtextrn, ids, [rng.choice([0, 123456, 3]) for _ in ids])))
+    if rng.random() < 0.5:
+        form, _w = FORMS[rng.randrange(len(FORMS))]
+        t, dd = _gen_table(rng, rng.randint(1, 9))
+        blocks.append(("tabled1", _write(bulk.wttabled1, rng.randint(1, 9999), t, dd, None, form)))
+    sets = []
+    for _ in range(rng.randint(0, 2)):
+        sid = rng.randint(1, 99999)
+        ids = [i for i in _gen_idlist(rng, 30) if i > 0] or [1]
+        if sid in [s_[0] for s_ in sets]:
+            continue
+        sets.append((sid, ids))
+        blocks.append((None, _write(bulk.wtset, sid, ids, rng.choice([72, 40, 30])) + "\n"))
+    rng.shuffle(blocks)
+    out = []
+    for rd, text in blocks:
+        u = rng.random()
+        if u < 0.25:
+            out.append((None, "$ a comment\n"))
+        elif u < 0.35:
+            out.append((None, "\n"))
+        elif u < 0.5:
+            out.append((None, "PARAM   POST    -1\n"))
+        elif u < 0.55:
+            out.append((None, "$\n$ DMIG GRID CORD2R in a comment\n"))
+        out.append((rd, text))
+    text = "".join(t for _, t in out)
+    own = {}
+    for rd, t in out:
+        if rd:
+            own[rd] = own.get(rd, "") + t
+    order = [sid for sid, _ in sorted(sets, key=lambda p: [i for i, (rd, t) in enumerate(out) if t.startswith("SET %d = " % p[0])][0])]
+    sets_in_order = [(sid, dict(sets)[sid]) for sid in order]
+    return text, _segments(text), own, sets_in_order
+
+
+def _multi_streams(ctx, B):
+    bulk = _bulk()
+    from pyyeti.nastran import n2p
+
+    for k in range(ctx.pick(60, 600)):
+        text, segs, own, sets = _gen_multi_file(ctx.rng, dmig=k % 20 != 0)
+        th = _hex(text)
+        req = "fileok " + " ".join("/".join([s_[0]] + [_hex(l) for l in s_[1:]]) for s_ in segs)
+        B.add("multi-file", req, {"text": text}, "ok", branch=["multi:fileok"] + ["multi:" + k for k in sorted(own)] +
+              (["multi:set"] if sets else []))
+        r = _read(bulk.rddmig, text)
+        B.add("multi-file", "rddmig " + th, {"text": text, "reader": "rddmig"},
+              "error" if isinstance(r, str) else [_frame_canon(k, v) for k, v in r.items()], _dmig_conv,
+              branch="multi:rddmig-" + ("no-dmig-card" if "dmig" not in own else "ok"))
+        e, q = ctx.rng.choice([(1, 0), (0, 1), (1, 1)])
+        r = _read(bulk.rddmig, text, expanded=bool(e), square=bool(q))
+        B.add("multi-file", "rddmigx %d %d %s" % (e, q, th), {"text": text, "reader": "rddmig", "expanded": bool(e), "square": bool(q)},
+              "error" if isinstance(r, str) else [_frame_canon(k, v) for k, v in r.items()], _dmig_conv)
+        r = _read(bulk.rdgrids, text)
+        B.add("multi-file", "rdgrids " + th, {"text": text, "reader": "rdgrids"},
+              "none" if r is None else (r if isinstance(r, str) else [[float(v) for v in row] for row in r.tolist()]), _rows_conv)
+        full = _read(bulk.rdcord2cards, text)
+
+        def conv_full(rep, n2p=n2p):
+            rows = [] if rep == "" else _rows_conv(rep)
+            if rows == "error":
+                return "error:ValueError"
+            if not rows:
+                return {}
+            try:
+                dd = n2p.build_coords(np.array(rows, dtype=float))
+            except Exception as ex:
+                return "error:" + type(ex).__name__
+            return {int(k): v.tolist() for k, v in dd.items()}
+
+        B.add("multi-file", "rdcord2 " + th, {"text": text, "reader": "rdcord2cards"},
+              full if isinstance(full, str) else {int(k): v.tolist() for k, v in full.items()}, conv_full)
+        if "spoint" in own:
+            r = _read(bulk.rdspoints, text)
+            B.add("multi-file", "rdspoints " + th, {"text": text, "reader": "rdspoints"},
+                  "error" if isinstance(r, str) else [int(v) for v in r],
+                  lambda rep: rep if rep == "error" else [int(v) for v in rep.split()])
+        r = _read(bulk.rdsets, text)
+        impl = "error" if isinstance(r, str) else [(int(k), [int(x) for x in v]) for k, v in r.items()]
+
+        def conv_sets(rep):
+            if rep == "error":
+                return rep
+            if rep == "":
+                return []
+            return [(_val_model(item.split("=")[0])[1], [int(x) for x in item.split("=")[1].split()]) for item in rep.split(";")]
+
+        B.add("multi-file", "rdsets " + th, {"text": text, "reader": "rdsets"}, impl, conv_sets)
+
+
 REQUIRED = [
     "findseq:ok", "findseq:error", "nasints:short", "nasints:exact-fill", "nasints:remainder",
     "csuper:one-line", "csuper:exact-fill", "csuper:remainder", "extrn:exact-fill", "extrn:remainder",
@@ -1342,7 +1494,8 @@ REQUIRED = [
     "grids:ValueError", "grids:defaults", "cord:written", "uset:with-coords", "uset:no-coords",
     "rdgrids:ok", "rdgrids:none", "rdgrids:index-error", "rdgrids:ragged", "rdcardsk", "rdcord2:ok", "rdcord2:error",
     "rdcord2:empty", "rdcord2:13-fields", "rdcord2cards",
-    "rddmigx:expanded", "rddmigx:square", "rddmigx:expandedsquare", "rddmigx:form1-expanded", "rddmigx:form1-square",
+    "multi:fileok", "multi:dmig", "multi:grid", "multi:cord2", "multi:spoint", "multi:csuper", "multi:extrn", "multi:tabled1",
+    "multi:set", "multi:rddmig-ok", "multi:rddmig-no-dmig-card", "rddmigx:expanded", "rddmigx:square", "rddmigx:expandedsquare", "rddmigx:form1-expanded", "rddmigx:form1-square",
     "rddmigx:form2-expanded", "rddmigx:form6-expanded", "rddmigx:form6-square", "rddmigx:form9-expanded", "rddmigx:form9-square",
 ]
 
@@ -1354,6 +1507,7 @@ def correspondence(ctx):
     _grid_streams(ctx, B, texts)
     _reader_streams(ctx, B, texts)
     _grid_reader_streams(ctx, B, texts)
+    _multi_streams(ctx, B)
     B.run(ctx)
     for it in B.items[:: max(1, len(B.items) // 6)]:
         ctx.sample({"stream": it[0], "input": it[2]})
@@ -1976,6 +2130,49 @@ def _o_uset(case):
     return None
 
 
+def _canon_reader(name, r):
+    if isinstance(r, str):
+        return r
+    if r is None:
+        return "none"
+    if name == "rddmig":
+        return [_frame_canon(k, v) for k, v in r.items()]
+    if name in ("rdcord2cards", "rdcsupers", "rdtabled1"):
+        return {float(k): np.asarray(v).tolist() for k, v in r.items()}
+    if name == "rdsets":
+        return {int(k): [int(x) for x in v] for k, v in r.items()}
+    return np.asarray(r).tolist()
+
+
+def _o_multi(case):
+    """one file with the cards of several writers (and SET statements, comments, foreign cards) interleaved: every reader
+    returns on it exactly what it returns on the text of its own cards alone, and rdsets returns exactly the written sets"""
+    bulk = _bulk()
+    text, own, sets = case["text"], case["own"], case["sets"]
+    readers = [("dmig", "rddmig", bulk.rddmig, {}), ("dmig", "rddmig", bulk.rddmig, {"expanded": True}),
+               ("dmig", "rddmig", bulk.rddmig, {"square": True}), ("grid", "rdgrids", bulk.rdgrids, {}),
+               ("cord2", "rdcord2cards", bulk.rdcord2cards, {}), ("spoint", "rdspoints", bulk.rdspoints, {}),
+               ("csuper", "rdcsupers", bulk.rdcsupers, {}), ("extrn", "rdextrn", bulk.rdextrn, {"expand": False}),
+               ("tabled1", "rdtabled1", bulk.rdtabled1, {})]
+    for blk, name, fn, kw in readers:
+        if blk not in own:
+            continue
+        whole = _canon_reader(name, _read(fn, text, **kw))
+        alone = _canon_reader(name, _read(fn, own[blk], **kw))
+        # (a CORD2x card that refers to an undefined system makes rdcord2cards raise on its own cards too: then the
+        # same exception is required on the shared file)
+        if whole != alone:
+            return ("multi-file-%s-disturbed-by-other-cards" % name,
+                    "%s(%s) on a file that also holds other cards / comments / SET statements differs from %s on its own cards alone"
+                    % (name, kw, name), str(whole)[:300], str(alone)[:300])
+    got = _canon_reader("rdsets", _read(bulk.rdsets, text))
+    want = {int(k): [int(x) for x in v] for k, v in sets}
+    if got != want or (not isinstance(got, str) and list(got) != [int(k) for k, _ in sets]):
+        return ("multi-file-rdsets-disturbed-by-cards", "rdsets on a file that also holds bulk cards does not return exactly the written sets",
+                str(got)[:300], str(want)[:300])
+    return None
+
+
 def _gen_oracle_cases(ctx):
     rng = ctx.rng
     cases = []
@@ -2128,6 +2325,10 @@ def _gen_oracle_cases(ctx):
         if c is not None:
             cases.append(("cordchain", c))
             ctx.count("oracle:cordchain:depth=%d:%s" % (min(c["depth"], 4), c["order"]))
+    # one file, several readers
+    for _ in range(ctx.pick(60, 600)):
+        text, _segs, own, sets = _gen_multi_file(rng)
+        cases.append(("multi", {"text": text, "own": own, "sets": [[sid, ids] for sid, ids in sets]}))
     # form-9 DMIG with column numbers that are not 1..n
     for cols in ([2, 5, 9], [7], [3, 1], [1, 2, 3], [12, 4]):
         nr = rng.randint(1, 4)
@@ -2213,6 +2414,9 @@ def _run_oracle_case(kind, case, known):
         return [r] if r else []
     if kind == "cordchain":
         r = _o_cordchain(case)
+        return [r] if r else []
+    if kind == "multi":
+        r = _o_multi(case)
         return [r] if r else []
     return []
 
